@@ -790,17 +790,23 @@ def check_all_switches_build(ctx, stds=(True, False)):
             for rt in (False, True):
                 for tf in ("", "+sse4.2", "+avx2", "+sse4.2,+avx2"):
                     combos.append((std, dis, rt, tf))
+        # code may also be gated on target features the build script does not know about (bmi1, popcnt, ...):
+        # every feature of a recent CPU level switched on at once
+        combos.append((std, False, False, "cpu=x86-64-v3"))
+        combos.append((std, True, False, "cpu=x86-64-v3"))
 
     def one(c):
         std, dis, rt, tf = c
         flags = []
-        if tf:
+        if tf.startswith("cpu="):
+            flags.append("-C target-cpu=" + tf[4:])
+        elif tf:
             flags.append("-C target-feature=" + tf)
         if dis:
             flags.append('--cfg httparse_disable_simd="1"')
         if rt:
             flags.append('--cfg httparse_disable_simd_compiletime="1"')
-        name = "%d%d%d%s" % (std, dis, rt, tf.replace("+", "").replace(",", "_").replace(".", ""))
+        name = "%d%d%d%s" % (std, dis, rt, tf.replace("+", "").replace(",", "_").replace(".", "").replace("=", ""))
         env = {"CARGO_TARGET_DIR": os.path.join(BUILD, "cargo", "switches", name), "RUSTFLAGS": " ".join(flags)}
         cmd = ["cargo", "check", "--offline", "--lib"] + ([] if std else ["--no-default-features"])
         rc, out = sh(cmd, cwd=REPO, env=env, timeout=900)
